@@ -66,7 +66,8 @@ func runC20(args []string) {
 	r.Rule = "iohelp primitives driven directly in a child process (plain and -asan builds): write/read round trips per bit pattern " +
 		"(exhaustive for bool/byte/uint8/int16/uint16, boundary+seeded random beyond) compared with an encoding/binary reference; " +
 		"string readers on every buffer length x count; fixed-width slice readers/writers on short exact-size buffers; " +
-		"stream readers with k fresh bytes then a failure, twice after different earlier reads (non-interference). " +
+		"stream readers with k fresh bytes then a failure, twice after different earlier reads (non-interference); " +
+		"strings/byte arrays of 0..70001 bytes (around the 4096-byte pre-allocation limit and its doublings) on a stream followed by further values, through 6 read schedules, complete and cut inside the payload. " +
 		"distinct = (oracle, type, cell) where cell is the pattern class / buffer length / (k, error kind)."
 	r.Assume = []string{"the reference layout is encoding/binary little endian; date = int64 ticks of 100ns since the Unix epoch, tick 0 <-> zero time",
 		"ASan red zones follow exactly-sized heap buffers (Go -asan build)"}
